@@ -682,3 +682,45 @@ theorem matmul_refuses_leading (a b : Tensor S) (ta tb : Bool) (c : Option (Tens
   rfl
 
 end Corgi
+
+namespace Corgi
+variable {S : Type} [Add S] [Mul S] [Neg S] [Sub S] [ScalarOps S]
+
+/-- the product without additive term, in flat (buffer-position) form -/
+theorem matmul_flat_none (a b : Tensor S) (ta tb : Bool) (la lb : List Nat) (a1 a2 b1 b2 : Nat)
+    (hda : a.dims = la ++ [a1, a2]) (hdb : b.dims = lb ++ [b1, b2]) (hwa : a.WF) (hwb : b.WF)
+    (hc : Compat la lb = true) (hinner : (if ta then a1 else a2) = (if tb then b2 else b1)) :
+    matmul a ta b tb none = .ok ⟨bdims la lb ++ [if ta then a2 else a1, if tb then b1 else b2],
+      (List.range (prod (bdims la lb) * ((if ta then a2 else a1) * (if tb then b1 else b2)))).map (fun p =>
+        mmEntry la lb a1 a2 b1 b2 (if ta then a2 else a1) (if tb then b1 else b2) (if ta then a1 else a2) ta tb
+          a.vals b.vals (fun _ => zero)
+          (unflatten (bdims la lb) (p / ((if ta then a2 else a1) * (if tb then b1 else b2))))
+          (p % ((if ta then a2 else a1) * (if tb then b1 else b2))))⟩ := by
+  rw [matmul_spec_none a b ta tb la lb a1 a2 b1 b2 hda hdb hwa hwb hc hinner]
+  have ha' := tensor_eta a _ hda
+  have hb' := tensor_eta b _ hdb
+  have hposA : ∀ d ∈ la ++ [a1, a2], 1 ≤ d := by rw [← hda]; exact hwa.1
+  have hposB : ∀ d ∈ lb ++ [b1, b2], 1 ≤ d := by rw [← hdb]; exact hwb.1
+  have hposLa : ∀ d ∈ la, 1 ≤ d := fun d hd => hposA d (by simp [hd])
+  have hposLb : ∀ d ∈ lb, 1 ≤ d := fun d hd => hposB d (by simp [hd])
+  have hposL := bdims_pos la lb hposLa hposLb
+  obtain ⟨hlea, _⟩ := (Fits_iff _ _).mp (Fits_bdims_left la lb hposLa hc)
+  obtain ⟨hleb, _⟩ := (Fits_iff _ _).mp (Fits_bdims_right la lb hposLb hc)
+  have hn1 : 1 ≤ (if tb then b1 else b2) := by
+    have h1 := hposB b1 (by simp); have h2 := hposB b2 (by simp); split <;> assumption
+  congr 1
+  simp only [specMatmul, Tensor.ofFn, hda, hdb]
+  have e1 : (la ++ [a1, a2]).take ((la ++ [a1, a2]).length - 2) = la := by simp
+  have e2 : (lb ++ [b1, b2]).take ((lb ++ [b1, b2]).length - 2) = lb := by simp
+  have e3 : (la ++ [a1, a2]).drop ((la ++ [a1, a2]).length - 2) = [a1, a2] := by simp
+  have e4 : (lb ++ [b1, b2]).drop ((lb ++ [b1, b2]).length - 2) = [b1, b2] := by simp
+  simp only [e1, e2, e3, e4, List.getD_cons_zero, List.getD_cons_succ]
+  congr 1
+  rw [prod_append, prod2]
+  apply List.map_congr_left
+  intro p hp
+  have hp' : p < prod (bdims la lb) * ((if ta then a2 else a1) * (if tb then b1 else b2)) := by simpa using hp
+  rw [mmEntry_spec la lb (bdims la lb) a1 a2 b1 b2 ta tb a.vals b.vals _ hposL hlea hleb hinner _ _ _ rfl rfl rfl hn1 p hp']
+  rw [← hda, ← hdb]
+
+end Corgi
